@@ -108,17 +108,20 @@ def r2_decoders(ctx, fam):
     construct = P + '._thread'
     found = {}
     from ..sym import with_new_helpers
-    for t in [x for g in with_new_helpers(m, f) for x in walk_own(g.node)]:
+    for g, t in [(g, x) for g in with_new_helpers(m, f)
+                 for x in walk_own(g.node)]:
         if not isinstance(t, ast.Try):
             continue
+        # in a helper a `return` inside the handler goes back to the loop
+        leaving = (ast.Raise, ast.Break, ast.Return) if g is f else \
+            (ast.Raise,)
         for s in t.body:
             for c in ast.walk(s):
                 if isinstance(c, ast.Call) and U(c.func) in ('pickle.loads',
                                                              'json.loads'):
                     catch_all = any(h.type is None or U(h.type) in (
                         'Exception', 'BaseException') for h in t.handlers)
-                    quiet = all(not isinstance(x, (ast.Raise, ast.Break,
-                                                   ast.Return))
+                    quiet = all(not isinstance(x, leaving)
                                 for h in t.handlers for x in ast.walk(h))
                     found[U(c.func)] = (t, catch_all and quiet and
                                         len(t.body) == 1)
@@ -554,6 +557,39 @@ def r9_no_lock_around_app(ctx, fam):
                'message handling', cls.module.relpath)
 
 
+def r10_resubscribe(ctx, cname):
+    """the listener restarts `_listen()` after a message it could not
+    process, and `_publish`'s retry swaps `self.pubsub` for a fresh,
+    unsubscribed object (`_redis_connect`): every entry of `_listen` must
+    therefore subscribe the object it is about to iterate.  A subscribe that
+    is skipped on some path (a manager-level "already subscribed" flag)
+    iterates an unsubscribed PubSub after such a swap: `listen()` returns at
+    once and the retry loop spins without ever delivering another message."""
+    m = ctx.model
+    f = m.own_method(cname, '_listen')
+    construct = cname + '._listen'
+    run = run_function(f, m, max_iter=1)
+    n = 0
+    for p in run.paths:
+        its = [e for e in p.events if e.kind in ('iter', 'call') and
+               '_redis_listen_with_retries' in U(e.expr)]
+        if not its:
+            continue
+        n += 1
+        subs = [e for e in p.calls('subscribe')
+                if e.recv() == 'self.pubsub' and e.idx < its[0].idx]
+        ctx.check(bool(subs), construct, 'the channel is subscribed on this '
+                  'entry before the listen iterator is consumed',
+                  key='entry-without-subscribe', reason='on path %s _listen '
+                  'starts iterating without subscribing self.pubsub: after '
+                  '_publish() has reconnected (a new, unsubscribed pubsub '
+                  'object) a restarted listener receives nothing and its '
+                  'retry loop spins' % p.describe()[:120], where=where(f))
+    if not n:
+        raise AnalysisError(construct + ': no path reaches the listen '
+                            'iterator')
+
+
 def run(ctx):
     ctx.rule('C15.R9', 'no non-reentrant lock is held while application code '
              'can run (listener / emit self-deadlock)', floor=2)
@@ -617,6 +653,10 @@ def run(ctx):
         backends += ['KombuManager', 'AsyncAioPikaManager']
     for b in backends:
         r5_retry(ctx, b, ctx.tier == 'thorough')
+    ctx.rule('C15.R10', 'redis backends: every (re)start of _listen '
+             'subscribes the pubsub object it iterates', floor=2)
+    for b in ('RedisManager', 'AsyncRedisManager'):
+        r10_resubscribe(ctx, b)
     ctx.assume('logger calls do not raise')
     ctx.assume('that each _handle_* tolerates wrong-typed fields is NOT '
                'needed: whatever they raise is contained (R1)')
